@@ -906,7 +906,7 @@ func init() {
 	register("E17", func(tier string, seed uint64) []Case {
 		var cases []Case
 		const chunks = 16
-		d3 := tierPick(tier, 300, 60000)
+		d3 := tierPick(tier, 300, 400000)
 		d3p := tierPick(tier, 3200, 400000)
 		for c := 0; c < chunks; c++ {
 			cases = append(cases, e17SemanticsCase(c, chunks, seed, d3))
